@@ -91,3 +91,126 @@ def RClass.ofCode : Nat → RClass
   | _ => .leak
 
 end Shroud.Registry
+
+/-! ### process-wide state as order-carrying containers; one run as a program of stages
+
+Every registry the translator finds (`Gen/Registry.lean`: dict / OrderedDict / list at module or class level) is a
+container that keeps *insertion order*.  A run of `main_with_args` is a program of stages over these containers: it
+rebinds or refills some (`typemap.initialize`, `Wrapc.__init__`, `update_stmt_tree`, `add_all_helpers`), inserts into
+some (`register_type`, `add_shadow_helper`: `if name not in CHelpers`), emits from some, and may raise at any stage. -/
+namespace Shroud.Registry
+
+/-- a Python dict / OrderedDict / list of pairs: items in insertion order -/
+abbrev Cont := List (Nat × Nat)
+
+/-- `d[k] = v`: replaces in place when the key is present, appends otherwise -/
+def dput (k v : Nat) : Cont → Cont
+  | [] => [(k, v)]
+  | p :: t => if p.1 = k then (k, v) :: t else p :: dput k v t
+
+/-- `d.get(k)` -/
+def dget (k : Nat) : Cont → Option Nat
+  | [] => none
+  | p :: t => if p.1 = k then some p.2 else dget k t
+
+def Cont.keys (c : Cont) : List Nat := c.map (·.1)
+
+/-- keys in order of first occurrence: what iteration over a dict filled from `ks` yields -/
+def firstOcc (ks : List Nat) : List Nat :=
+  ks.foldl (fun acc k => if k ∈ acc then acc else acc ++ [k]) []
+
+/-- fill a container from a sequence of insertions -/
+def insertAll (kvs : List (Nat × Nat)) (c : Cont) : Cont := kvs.foldl (fun c p => dput p.1 p.2 c) c
+
+/-- all registries of the process, by registry index -/
+abbrev World := Nat → Cont
+
+def World.set (w : World) (r : Nat) (c : Cont) : World := fun i => if i = r then c else w i
+
+/-- one modelled stage of a run -/
+inductive Op where
+  | reset (r : Nat) (init : Cont)   -- rebind / clear and refill from the run's own input
+  | put (r k v : Nat)               -- `reg[k] = v`
+  | putNew (r k v : Nat)            -- `if k not in reg: reg[k] = v` (`add_shadow_helper`, `setdefault`)
+  | emit (r : Nat)                  -- write the container's items, in its order, into an output file
+  | emitKey (r k : Nat)             -- look one key up and write what was found
+  | fail                            -- raise: the run ends here, the process state stays as it is
+  deriving Repr, DecidableEq
+
+/-- state of a run in progress: registries, what was emitted so far, whether it raised -/
+structure RunSt where
+  w : World
+  out : List Cont
+  failed : Bool
+
+def execFrom : List Op → World → List Cont → RunSt
+  | [], w, o => ⟨w, o, false⟩
+  | .fail :: _, w, o => ⟨w, o, true⟩
+  | .reset r i :: t, w, o => execFrom t (w.set r i) o
+  | .put r k v :: t, w, o => execFrom t (w.set r (dput k v (w r))) o
+  | .putNew r k v :: t, w, o =>
+      execFrom t (match dget k (w r) with | some _ => w | none => w.set r (dput k v (w r))) o
+  | .emit r :: t, w, o => execFrom t w (o ++ [w r])
+  | .emitKey r k :: t, w, o => execFrom t w (o ++ [match dget k (w r) with | some v => [(k, v)] | none => []])
+
+/-- one run from world `w` -/
+def exec (ops : List Op) (w : World) : RunSt := execFrom ops w []
+
+/-- the registry an op writes, if any -/
+def Op.target : Op → Option Nat
+  | .reset r _ => some r
+  | .put r _ _ => some r
+  | .putNew r _ _ => some r
+  | _ => none
+
+/-- no stage writes a registry of `s0` (the registries classified immutable) -/
+def noWrite (s0 : List Nat) (ops : List Op) : Bool :=
+  ops.all (fun op => match op.target with | some r => !(s0.contains r) | none => true)
+
+/-- the discipline a run has to keep, computed forward over its stages: `s` = registries whose whole contents are
+    determined (immutable, or reset earlier in this run), `sk` = (registry, key) pairs written earlier in this run.
+    Every stage that *reads* must read determined state. -/
+def disciplined : List Nat → List (Nat × Nat) → List Op → Bool
+  | _, _, [] => true
+  | _, _, .fail :: _ => true
+  | s, sk, .reset r _ :: t => disciplined (r :: s) sk t
+  | s, sk, .put r k _ :: t => disciplined s ((r, k) :: sk) t
+  | s, sk, .putNew r k _ :: t => (s.contains r || sk.contains (r, k)) && disciplined s ((r, k) :: sk) t
+  | s, sk, .emit r :: t => s.contains r && disciplined s sk t
+  | s, sk, .emitKey r k :: t => (s.contains r || sk.contains (r, k)) && disciplined s sk t
+
+/-! ### the output directory
+
+`write_output_file` opens the file for writing, so whatever was there is replaced; `config.cfiles` / `config.ffiles`
+get the name appended at every write, in order.  `ifChanged` is the policy build systems wrap around generators
+(keep the old file when the new text is identical); it is modelled to show it cannot change any contents. -/
+
+/-- file name -> contents (`none`: no such file) -/
+abbrev FS := Nat → Option (List Nat)
+
+def FS.write (d : FS) (n : Nat) (c : List Nat) : FS := fun i => if i = n then some c else d i
+
+inductive WritePolicy where
+  | always | ifChanged
+  deriving Repr, DecidableEq
+
+def FS.writeP (p : WritePolicy) (d : FS) (n : Nat) (c : List Nat) : FS :=
+  match p with
+  | .always => d.write n c
+  | .ifChanged => if d n = some c then d else d.write n c
+
+/-- write the planned files in order; returns the directory and the reported file list -/
+def writeAll (p : WritePolicy) : List (Nat × List Nat) → FS → FS
+  | [], d => d
+  | (n, c) :: t, d => writeAll p t (d.writeP p n c)
+
+def reported (plan : List (Nat × List Nat)) : List Nat := plan.map (·.1)
+
+/-- the last text planned for a name -/
+def planned (n : Nat) : List (Nat × List Nat) → Option (List Nat)
+  | [] => none
+  | (m, c) :: t => match planned n t with
+    | some c' => some c'
+    | none => if m = n then some c else none
+
+end Shroud.Registry
